@@ -185,3 +185,93 @@ class SyncC02(SyncSuite):
 class SyncC05(SyncSuite):
     name = "notify"
     focus = ("c05",)
+
+
+def canon_after(after, before):
+    """destination snapshot in a schedule-independent form: inode numbers -> group classes, mtimes of pre-existing directories dropped"""
+    groups = {}
+    out = []
+    old_dirs = {b["p"] for b in before if b["mode"] & (1 << 31)}
+    for e in after:
+        g = groups.setdefault(e["ino"], len(groups))
+        d = {k: e.get(k) for k in ("p", "mode", "uid", "gid", "size", "ln", "dmaj", "dmin", "sha", "x")}
+        d["grp"] = g
+        if not (e["mode"] & (1 << 31) and e["p"] in old_dirs):
+            d["mt"] = e["mt"]
+        out.append(d)
+    return out
+
+
+class SchedSuite(SyncSuite):
+    """C08: the same transfer under K seeded schedules; outcomes must coincide and no stream call may overlap another"""
+    name = "sched"
+    focus = ("c01", "c05", "c08")
+    n_cases = {"quick": 120, "thorough": 1500, "search": 20}
+    K = {"quick": 8, "thorough": 24, "search": 6}
+    rule = ("transfers with many multi-chunk files in flight, each run under K seeded schedules (stream capacity 0..64, per-call delays, overlap-detector "
+            "window holding every SendMsg/RecvMsg open, read-size schedules, GOMAXPROCS 1..16); outcome = final tree, REQ set, notification set with digests")
+
+    def gen(self, rng, tier):
+        ops = []
+        for _ in range(self.n_cases[tier]):
+            tree = gen.disk_tree(rng, rng.choice([15, 30, 60]), 3, types=("dir", "file", "file", "symlink", "hardlink", "fifo"),
+                                 file_sizes=(0, 100, 32768, 40000, 70000, 100000), xattrs=False)
+            r = rng.random()
+            dst = [] if r < 0.4 else gen.mutate_disk_tree(rng, tree)
+            scheds = []
+            for _ in range(self.K[tier]):
+                scheds.append({"cap": rng.choice([0, 0, 1, 4, 16, 64]), "delay": rng.choice([0, 0, 5, 50]), "window": rng.choice([0, 2, 10, 50]),
+                               "seed": rng.randrange(1 << 30), "procs": rng.choice([1, 2, 4, 16]),
+                               "readsizes": [rng.choice([0, 1000, 32768, 5000]) for _ in range(rng.randint(1, 3))]})
+            ops.append({"op": "sync", "src": {"kind": "mem", "tree": tree}, "dst": dst, "opt": {"notify": True, "cap": 4, "seed": 1},
+                        "schedules": scheds})
+        return ops
+
+    def prepare_model(self, ops, impl=None):
+        firsts = []
+        for k, o in enumerate(ops):
+            i = impl[k] if impl else {}
+            runs = i.get("runs") if isinstance(i, dict) else None
+            firsts.append(runs[0] if runs else {})
+        return super().prepare_model(ops, firsts)
+
+    def judge(self, op, impl, model):
+        runs = impl.get("runs")
+        if not runs or any("view" not in r for r in runs):
+            return Verdict(True, None, "skipped: %s" % str(impl)[:200])
+        v0 = super().judge(op, runs[0], model)
+        notes = [v0.note] if v0.note else []
+        ok = v0.spec_ok is not False
+        ref = None
+        for k, r in enumerate(runs):
+            if r["send"] != "ok" or r["recv"] != "ok":
+                ok = False
+                notes.append("schedule %d: transfer failed send=%s recv=%s %s" % (k, r["send"], r["recv"], r.get("recverr") or r.get("senderr")))
+                continue
+            if any(r.get("overlaps", [])):
+                ok = False
+                notes.append("schedule %d: concurrent stream calls [S.send,S.recv,R.send,R.recv]=%s" % (k, r["overlaps"]))
+            out = (canon_after(r["after"], r["before"]), sorted(reqs_of(r)),
+                   sorted((n["kind"] if n["kind"] == "delete" else "upsert", n["p"], bool(n.get("digest_ok", True))) for n in r["notif"]))
+            if ref is None:
+                ref = out
+            elif out != ref:
+                ok = False
+                which = ["final tree", "REQ set", "notifications"][[a != b for a, b in zip(out, ref)].index(True)]
+                notes.append("schedule %d: %s differs from schedule 0" % (k, which))
+        return Verdict(v0.agree and ok, ok, "; ".join(notes))
+
+    def features(self, op, impl, model):
+        runs = impl.get("runs") or [{}]
+        return ["schedules=%d" % len(op["schedules"]), "reqs>%d" % (0 if not reqs_of(runs[0]) else 10 if len(reqs_of(runs[0])) >= 10 else 1)]
+
+    def shrink(self, op):
+        out = []
+        for o in super().shrink(op):
+            out.append(o)
+        if len(op["schedules"]) > 2:
+            for i in range(len(op["schedules"])):
+                o = dict(op)
+                o["schedules"] = op["schedules"][:i] + op["schedules"][i + 1:]
+                out.append(o)
+        return out
